@@ -46,7 +46,7 @@ def _pos_forms(p, last):
     if p == "n":
         return [["NUM"], ["10K"], ["1k"], ["2m"], ["3G"], ["0"], ["007"]]
     if p == "s":
-        return ([["STR"], ["ML"], ["text:\n..x\n."], ["text: #c\nabc\n."], ["text:\n\n."], ["text:\n."], ["TEXT:\nabc\n."], ["Text:\t#c\nabc\n."], ['"a\\"b\\\\"'], ['""']]
+        return ([["STR"], ["ML"], ["text:\n..x\n."], ["text: #c\nabc\n."], ["text:\n\n."], ["text:\n."], ["TEXT:\nabc\n."], ["Text:\t#c\nabc\n."], ['"a\\"b\\\\"'], ['""'], ['"p  q r"'], ['"\udced\udca0\udc80"']]
                 if last else [["STR"]])
     return [["STR"], ["LIST1"], ["LIST2"], ["LISTDUP"]]
 
@@ -60,8 +60,8 @@ def _tag_syms(tag, spec):
     if ptype == "n":
         return [[tag, "NUM"]]
     if ptype == "s":
-        return [[tag, "STR"], [tag, "ML"]]
-    return [[tag, "STR"], [tag, "LIST2"], [tag, "ML"], [tag, "LISTDUP"]]
+        return [[tag, "STR"], [tag, "ML"], [tag, '"p  q r"']]
+    return [[tag, "STR"], [tag, "LIST2"], [tag, "ML"], [tag, "LISTDUP"], [tag, '"p  q r"']]
 
 
 def command_forms(name, max_slots=None, max_forms=None):
@@ -201,7 +201,7 @@ def chains(depth):
 # single-token edits
 
 SUBST = [";", "{", "}", "(", ")", ",", "[", "]", "STR", "NUM", ":is", ":foreign", "true", "keep", "foo", "not", "if", "else",
-         "ML", "text:\r\nab\r\n..c\r\n.", "GLUE:@@", "GLUE:\xff"]  # multi-line tokens as the offending token (LF and CRLF inside)
+         "ML", "text:\r\nab\r\n..c\r\n.", "GLUE:@@", "GLUE:\xff", "RAW:\udc80", "RAW:\udcbfz", "GLUE:\udca9"]  # multi-line tokens as the offending token (LF and CRLF inside)
 
 
 def flatten(word):
@@ -244,7 +244,9 @@ PREFIX = S.REQ_ALL
 
 REQ_NAMES = ['"fileinto"', '"copy"', '"imap4flags"', '"Fileinto"', '" fileinto"', '"copy\t"', '"nosuch"', '""', '"vacation-seconds"', '"vacation"',
              # capability strings that are not extension names: comparator-* (their names contain hyphens), names of extension-bound commands
-             '"comparator-i;ascii-casemap"', '"setflag"']
+             '"comparator-i;ascii-casemap"', '"setflag"',
+             # backslash sequences that mean something to Python but not to Sieve (there `\x` is just `x`): these name no extension
+             '"\\x66ileinto"', '"cop\\171"']
 REQ_USES = [("fileinto", "STR", ";"), ("fileinto", ":copy", "STR", ";"), ("keep", ":flags", "STR", ";"), ("keep", ";"),
             ("if", "hasflag", "STR", "{", "fileinto", "STR", ";", "}"), ("redirect", ":copy", "STR", ";"),
             ("vacation", ":seconds", "NUM", "STR", ";"), ("vacation", "STR", ";"), ("setflag", "STR", ";")]
